@@ -23,6 +23,7 @@ LEAN_TARGETS = ['CfVerif.Props.C06']
 PROPS_MODULES = ['CfVerif.Props.C06']
 DRIVER = 'Driver/C06.lean'
 SRC = 'cflib/crazyflie/mem/__init__.py'
+CALLBACKS = 'cflib/utils/callbacks.py'
 
 
 # =====================================================================================================
@@ -76,7 +77,7 @@ def _inside(node, anc, par):
 
 
 def extract(ctx):
-    g = X.GenFile(PID, [SRC, 'cflib/crtp/crtpstack.py', 'cflib/crazyflie/__init__.py'])
+    g = X.GenFile(PID, [SRC, 'cflib/crtp/crtpstack.py', 'cflib/crazyflie/__init__.py', CALLBACKS])
     tree = X.parse(SRC)
     mod = X.int_assigns(ast.Module(body=[n for n in tree.body if isinstance(n, ast.Assign)], type_ignores=[]))
     for k in ('CHAN_INFO', 'CHAN_READ', 'CHAN_WRITE'):
@@ -189,6 +190,39 @@ def extract(ctx):
     g.strings('memReadAssigns', _assign_texts(f))
     g.strings('memReadReturns', [ast.unparse(n) for n in ast.walk(f) if isinstance(n, ast.Return)])
     g.strings('memReadCalls', _calls(f, '.start'))
+
+    # ---- Caller (cflib/utils/callbacks.py): the fan-out behind mem_read_cb / mem_read_failed_cb / mem_write_cb / mem_write_failed_cb
+    cl = X.find(X.parse(CALLBACKS), 'Caller')
+
+    def body_of(fn):
+        return [n for n in fn.body if not (isinstance(n, ast.Expr) and isinstance(n.value, ast.Constant))]
+    call = X.find(cl, 'call')
+    loops = [n for n in ast.walk(call) if isinstance(n, ast.For)]
+    X.expect(len(loops) == 1 and not loops[0].orelse, 'Caller.call: expected one for loop')
+    it = loops[0].iter
+    if isinstance(it, ast.Name):
+        asg = [n for n in call.body if isinstance(n, ast.Assign) and ast.unparse(n.targets[0]) == it.id]
+        X.expect(len(asg) == 1, 'Caller.call: iteration variable %s is not assigned exactly once' % it.id)
+        it = asg[0].value
+    src = ast.unparse(it)
+    base = 'self.callbacks'
+    if src == base:
+        copies = False
+    elif src in ('list(%s)' % base, 'tuple(%s)' % base, '%s[:]' % base, '%s.copy()' % base):
+        copies = True
+    else:
+        raise ExtractError('Caller.call: iteration source %r is neither %s nor a recognised copy of it' % (src, base))
+    g.raw('def callerCallCopies : Bool := %s' % ('true' if copies else 'false'))
+    g.strings('callerCallLoopBody', [ast.unparse(n) for n in loops[0].body])
+    g.string('callerCallArgs', ast.unparse(call.args))
+    g.strings('callerAddBody', [ast.unparse(n) for n in body_of(X.find(cl, 'add_callback'))])
+    g.strings('callerRemoveBody', [ast.unparse(n) for n in body_of(X.find(cl, 'remove_callback'))])
+    g.strings('callerInitBody', [ast.unparse(n) for n in body_of(X.find(cl, '__init__'))])
+    # which Callers Memory notifies through, and that _clear_state() replaces them (subscriptions do not survive a disconnect)
+    g.strings('memNotifyCalls', sorted(set(ast.unparse(n.func) for n in ast.walk(mem) if isinstance(n, ast.Call)
+                                           and ast.unparse(n.func).startswith('self.mem_') and ast.unparse(n.func).endswith('_cb.call'))))
+    g.strings('clearStateCallers', [ast.unparse(n) for n in X.find(mem, '_clear_state').body
+                                    if isinstance(n, ast.Assign) and ast.unparse(n.value) == 'Caller()'])
 
     f = X.find(mem, '_handle_chan_write')
     style, w = _lock_style(f)
@@ -525,7 +559,30 @@ class RealMem:
             return self.pkt(int(ws[1]), b'' if ws[2] == '-' else bytes.fromhex(ws[2]))
         if ws[0] == 'disc':
             return self.disc()
+        if ws[0] == 'oneshot':
+            return self.oneshot()
         raise ValueError(ws)
+
+    CALLERS = ['mem_read_cb', 'mem_read_failed_cb', 'mem_write_cb', 'mem_write_failed_cb']
+
+    def oneshot(self):
+        """an application registers a one-shot listener (it un-registers itself when called) on each notification Caller
+        BEFORE the library's own listeners (as an application does that subscribes before the memories are enumerated):
+        through the API, everything after this check's observer is taken off and put back behind the new listener"""
+        for name in self.CALLERS:
+            caller = getattr(self.mem, name)
+            rest = list(caller.callbacks)[1:]
+            for cb in rest:
+                caller.remove_callback(cb)
+
+            def make(caller=caller):
+                def once(*a):
+                    caller.remove_callback(once)
+                return once
+            caller.add_callback(make())
+            for cb in rest:
+                caller.add_callback(cb)
+        return 'ok'
 
 
 class RealTester(RealMem):
@@ -640,6 +697,52 @@ class RealDeck(RealMem):
             self.mgr.disconnect()
             return 'ok'
         return RealMem.line(self, ws)
+
+
+class RealSubs(RealMem):
+    """the real Memory with scripted subscribers on its four notification Callers.  Subscriber c has one callable per
+    Caller (so add_callback's duplicate check and remove_callback work as for any application callback); when called it
+    writes down `c=<notification>` and performs the entry of its script for this (its n-th) invocation: subscribe /
+    unsubscribe (guarded: only when registered) any subscriber - itself included - on any of the Callers."""
+    TAGS = ['RO', 'RF', 'WO', 'WF']
+
+    def __init__(self):
+        RealMem.__init__(self)
+        self.told, self.scripts, self.count, self.cbs = [], {}, {}, {}
+
+    def cb(self, c, k):
+        if (c, k) not in self.cbs:
+            def f(mem, addr, *data):
+                note = '%s:%d:%d:%d' % (self.TAGS[k], mem.tag, mem.id, addr) + (':' + hexs(data[0]) if k < 2 else '')
+                self.told.append('%d=%s' % (c, note))
+                n = self.count.get(c, 0)
+                self.count[c] = n + 1
+                sc = self.scripts.get(c, [])
+                for act in (sc[n] if n < len(sc) else []):
+                    self.act(act)
+            self.cbs[(c, k)] = f
+        return self.cbs[(c, k)]
+
+    def act(self, act):
+        op, k, c = act
+        caller = getattr(self.mem, self.CALLERS[k])
+        g = self.cb(c, k)
+        if op == 'a':
+            caller.add_callback(g)
+        elif g in caller.callbacks:
+            caller.remove_callback(g)
+
+    def line(self, ws):
+        if ws[0] == 'fbeh':
+            self.scripts[int(ws[1])] = [[] if inv == '-' else [(a[0], int(a[1]), int(a.split(':')[1])) for a in inv.split(',')]
+                                        for inv in ws[2].split('/')]
+            return 'ok'
+        del self.told[:]
+        if ws[0] in ('fsub', 'funsub'):
+            r = self._do(lambda: self.act(('a' if ws[0] == 'fsub' else 'r', int(ws[1]), int(ws[2]))))
+        else:
+            r = RealMem.line(self, [ws[0][1:]] + ws[1:])
+        return '%s %s' % (r, ';'.join(self.told) or '-')
 
 
 # =====================================================================================================
@@ -1165,6 +1268,8 @@ REQUIRED_THEOREMS = ['CfVerif.C06.' + t for t in (
     'wrong_pattern_outlives_request_counterexample',
     'gen_conc_discipline', 'every_interleaving_is_atomic', 'every_schedule_is_an_atomic_history', 'write_exact_every_schedule',
     'read_exact_every_schedule', 'start_outside_lock_counterexample', 'code_blocks_early_ack',
+    'gen_caller_call', 'every_registered_subscriber_is_told_exactly_once', 'subscribers_are_told_what_is_due',
+    'live_iteration_skips_the_next_subscriber',
     'd9_lock_left_held', 'd9_wedged')]
 TRUSTED = ['harness/corr/c06.py extractor + correspondence (fake `cf` boundary object: add_port_callback, disconnected, send_packet with the '
            'size check of Crazyflie.send_packet; CheckedLock turns a blocking acquire of a held lock into `hang`; one MemProxy object per '
@@ -1198,6 +1303,9 @@ ASSUMPTIONS = ['A1 (freshness, data-exactness theorems only): no reply belonging
                'treated as happening after the call (the disconnect callback is modelled as one step that waits for the lock). A reply '
                'dispatched synchronously on the CALLING thread (re-entering the RLock) and two application threads racing in read() are '
                'outside the model',
+               'subscribers of the notification Callers (round 5): any behaviour that subscribes / unsubscribes anybody on any of the four '
+               'Callers from inside a notification or between events, depending on everything told so far; an unsubscribe of somebody '
+               'who is not subscribed is a guarded removal (a bare remove_callback would raise ValueError: covered by the next item)',
                'user callbacks do not raise (Caller.call would abort the remaining subscribers); requests issued while no link is open are '
                'outside the property; refresh()/info channel, DeckMemoryManager address mapping and progress texts are not modelled',
                "progress percentage: int(100*a/b) modelled as floor division (exact for transfer lengths < 2^45)"]
@@ -1212,7 +1320,11 @@ RULE = ('cases = whole histories driven adaptively on the REAL Memory object and
         'run LINE BY LINE in its own thread (StepMem) with the replies in flight handed to a second real thread at one chosen stop / at '
         'every stop / inside cf.send_packet before it returns (synchronous link), for every boundary length, with replies of other '
         'reads / writes / a queued write in flight; compared: what the caller did up to each stop, whether the incoming thread had to wait '
-        "for the lock ('blocked'), what each handler did, lock state, call result. distinct+non-trivial = distinct history (op lines)")
+        "for the lock ('blocked'), what each handler did, lock state, call result. Round 5: scripted subscribers on the four notification Callers "
+        "(one-shot self-removal at every position among permanent listeners, removing / adding others, scripts that change per invocation, "
+        "(un)subscription between events, Callers replaced by a link loss): after every step, additionally, who was told what, in order; "
+        "MemoryTester / DeckMemoryManager histories with self-removing application listeners registered ahead of the library's own. "
+        "distinct+non-trivial = distinct history (op lines)")
 
 READ_LENS = [0, 1, 19, 20, 21, 39, 40, 41, 59, 60, 61, 100]
 WRITE_LENS = [0, 1, 24, 25, 26, 49, 50, 51, 74, 75, 76, 100]
@@ -1233,12 +1345,13 @@ def ack_bytes(id, addr, status):
 class History:
     """drives the REAL code adaptively (the next step may depend on what the code sent) and records the op lines
     and the real replies; the same lines are replayed on the Lean driver afterwards."""
+    P = ''             # op prefix (`f`: the Memory ops behind the subscriber fan-out, SubHistory)
 
     def __init__(self, rng, variant='code'):
         self.rng = rng
-        self.real = RealMem()
+        self.real = self._make_real()
         self.dev = make_device(rng)
-        self.lines = ['reset ' + variant]
+        self.lines = [self.P + 'reset' + ('' if self.P else ' ' + variant)]
         self.replies = ['ok']
         self.inflight = []     # replies the device produced, not yet (or to be re-) delivered: (chan, bytes)
         self.history = []      # every reply ever produced
@@ -1256,23 +1369,26 @@ class History:
         del self.real.sent[:]
         return reply
 
+    def _make_real(self):
+        return RealMem()
+
     def op(self, line):
         return self._after(line, self.real.line(line.split(' ')))
 
     def read(self, id, addr, length):
         self.tag += 1
-        return self.op('read %d %d %d %d' % (self.tag, id, addr, length))
+        return self.op(self.P + 'read %d %d %d %d' % (self.tag, id, addr, length))
 
     def write(self, id, addr, data, flush=False, prog=False):
         self.tag += 1
-        return self.op('write %d %d %d %s %d %d' % (self.tag, id, addr, hexs(data), flush, prog))
+        return self.op(self.P + 'write %d %d %d %s %d %d' % (self.tag, id, addr, hexs(data), flush, prog))
 
     def pkt(self, chan, data):
-        return self.op('pkt %d %s' % (chan, hexs(data)))
+        return self.op(self.P + 'pkt %d %s' % (chan, hexs(data)))
 
     def disc(self):
         del self.inflight[:]
-        return self.op('disc')
+        return self.op(self.P + 'disc')
 
     def deliver(self, i=0, keep=False):
         chan, data = self.inflight[i] if keep else self.inflight.pop(i)
@@ -1334,12 +1450,164 @@ def rand_history(rng, steps, variant='code'):
     return h
 
 
+class SubHistory(History):
+    """History behind the subscriber fan-out; `twin` is the spec: who must be told (everybody registered when the
+    notification is issued, exactly once, in registration order), computed independently of Caller.call"""
+    P = 'f'
+
+    def _make_real(self):
+        return RealSubs()
+
+    def __init__(self, rng):
+        History.__init__(self, rng)
+        self.reg = [[], [], [], []]       # spec twin: registered subscribers per Caller
+        self.scripts, self.count = {}, {}
+        self.violations = []
+
+    def beh(self, c, script):
+        """script: list (per invocation) of lists of (op, k, c)"""
+        self.scripts[c] = script
+        txt = '/'.join(','.join('%s%d:%d' % a for a in inv) or '-' for inv in script) or '-'
+        return self.op('fbeh %d %s' % (c, txt))
+
+    def _twin_act(self, act):
+        op, k, c = act
+        if op == 'a':
+            if c not in self.reg[k]:
+                self.reg[k].append(c)
+        elif c in self.reg[k]:
+            self.reg[k].remove(c)
+
+    def sub(self, k, c):
+        r = self.op('fsub %d %d' % (k, c))
+        self._twin_act(('a', k, c))
+        return r
+
+    def unsub(self, k, c):
+        r = self.op('funsub %d %d' % (k, c))
+        self._twin_act(('r', k, c))
+        return r
+
+    def _after(self, line, reply):
+        History._after(self, line, reply)
+        f = reply.split(' ')
+        if line.split(' ')[0] in ('fread', 'fwrite', 'fpkt', 'fdisc') and len(f) == 4:
+            want = []
+            for o in f[1].split(';'):
+                tag = o.split(':')[0]
+                if tag in RealSubs.TAGS:
+                    k = RealSubs.TAGS.index(tag)
+                    for c in list(self.reg[k]):           # the subscribers registered when the notification is issued
+                        want.append('%d=%s' % (c, o))
+                        n = self.count.get(c, 0)
+                        self.count[c] = n + 1
+                        sc = self.scripts.get(c, [])
+                        for act in (sc[n] if n < len(sc) else []):
+                            self._twin_act(act)
+            got = [] if f[3] == '-' else f[3].split(';')
+            if got != want and not f[0].startswith('E:'):
+                self.violations.append({'step': line[:80], 'told': got, 'registered_when_issued': want})
+            if line == 'fdisc':
+                self.reg = [[], [], [], []]               # _clear_state(): new Caller objects
+        return reply
+
+
+def rand_script(rng, ids, me):
+    """what a subscriber does at its 1st, 2nd, ... invocation: one-shot self-removal, removing / adding others"""
+    x = rng.random()
+    if x < 0.35:
+        return [[('r', k, me) for k in range(4)]]                       # one-shot on every Caller
+    if x < 0.5:
+        return []
+    sc = []
+    for _ in range(rng.choice([1, 2, 3])):
+        sc.append([(rng.choice('ar'), rng.randrange(4), rng.choice(ids + [me])) for _ in range(rng.choice([0, 1, 2, 3]))])
+    return sc
+
+
+def sub_history(rng, steps):
+    h = SubHistory(rng)
+    ids = list(range(1, rng.choice([2, 3, 5]) + 1))
+    for c in ids:
+        h.beh(c, rand_script(rng, ids, c))
+    for c in ids:
+        for k in range(4):
+            if rng.random() < 0.7:
+                h.sub(k, c)
+    for _ in range(steps):
+        x = rng.random()
+        if x < 0.15:
+            n = rng.choice(READ_LENS[:6])
+            h.read(rng.randrange(N_MEMS), rng.randrange(0, MEM_SIZE - n + 10), n)
+        elif x < 0.32:
+            n = rng.choice(WRITE_LENS[:6])
+            h.write(rng.randrange(N_MEMS), rng.randrange(0, MEM_SIZE - n + 10), bytes(rng.randrange(256) for _ in range(n)),
+                    flush=rng.random() < 0.3, prog=rng.random() < 0.2)
+        elif x < 0.72 and h.inflight:
+            i = 0 if rng.random() < 0.7 else rng.randrange(len(h.inflight))
+            h.deliver(i, keep=rng.random() < 0.15)
+        elif x < 0.78:
+            chan = rng.choice([1, 2])
+            h.pkt(chan, ack_bytes(rng.randrange(N_MEMS), rng.choice([0, 20, 25, rng.randrange(160)]), rng.choice([2, 7, 12])))
+        elif x < 0.86:
+            (h.sub if rng.random() < 0.6 else h.unsub)(rng.randrange(4), rng.choice(ids))
+        elif x < 0.90:
+            c = rng.choice(ids)
+            h.beh(c, rand_script(rng, ids, c))
+        elif x < 0.94:
+            h.disc()
+            for c in ids:
+                if rng.random() < 0.6:
+                    h.sub(rng.randrange(4), c)
+        elif h.inflight:
+            h.deliver(0)
+    h.drain()
+    return h
+
+
+def sub_systematic(rng):
+    """one-shot listeners at every position among 1..3 permanent ones, on each Caller: read ok / read failed / write ok /
+    write failed / link loss with both kinds of request pending"""
+    res = []
+    for n_perm in (1, 2, 3):
+        for pos in range(n_perm + 1):
+            for mode in ('ok', 'fail', 'drop'):
+                h = SubHistory(rng)
+                order = list(range(1, n_perm + 1))
+                order.insert(pos, 9)
+                h.beh(9, [[('r', k, 9) for k in range(4)]])
+                if n_perm >= 2:
+                    h.beh(1, [[('r', 0, 2), ('a', 0, 7)], [('a', 2, 7)]])     # removes a later one, adds a new one
+                for c in order:
+                    for k in range(4):
+                        h.sub(k, c)
+                if mode == 'fail':
+                    h.dev.force_status(4, 1, bytes([1]) + struct.pack('<I', 5), 7, times=1)
+                    h.dev.force_status(4, 2, bytes([2]) + struct.pack('<I', 7), 13, times=1)
+                h.read(1, 5, 21)
+                h.write(2, 7, bytes(rng.randrange(256) for _ in range(26)))
+                if mode == 'drop':
+                    h.deliver(0)
+                    h.disc()
+                h.drain()
+                del h.dev.forced[:]
+                for k in range(4):
+                    h.sub(k, 9)
+                h.read(1, 5, 3)
+                h.write(2, 7, b'\x01\x02')
+                h.drain()
+                res.append(h)
+    return res
+
+
 def tester_history(rng, steps):
     tid = rng.randrange(N_MEMS)
     h = History(rng)
     h.real = RealTester(tid)
     h.lines.append('treset %d' % tid)
     h.replies.append('ok')
+    if rng.random() < 0.5:
+        h.op('oneshot')        # an application's self-removing listeners ahead of MemoryTester.new_data / write_done
     # memory 0..2 hold the tester pattern at some places so that validation succeeds and fails
     for m in h.dev.mems:
         for k in range(0, MEM_SIZE):
@@ -1365,6 +1633,8 @@ def tester_history(rng, steps):
             del h.inflight[:]
             h.op('disc')
             h.op('tdisc')
+            if rng.random() < 0.5:
+                h.op('oneshot')
     return h
 
 
@@ -1454,6 +1724,8 @@ def deck_history(rng, steps):
     Memory-level disconnect and manager.disconnect()"""
     did = rng.randrange(N_MEMS)
     h = new_deck_history(rng, did, version=rng.choice([3, 3, 3, 2]))
+    if rng.random() < 0.5:
+        h.op('oneshot')        # an application's self-removing listeners ahead of the manager's four subscribers
     rid = 0
     for _ in range(steps):
         x = rng.random()
@@ -1479,6 +1751,8 @@ def deck_history(rng, steps):
         elif x < 0.95:
             del h.inflight[:]
             h.op('ddisc')
+            if rng.random() < 0.5:
+                h.op('oneshot')
         elif x < 0.97:
             h.op('ddisconnect')
     return h
@@ -1577,7 +1851,7 @@ def classify(reply, counts):
     if len(f) == 4:
         for o in f[3].split(';'):
             if o != '-':
-                counts('deck:' + o.split(':')[0])
+                counts(('subscriber-told:' + o.split('=')[1].split(':')[0]) if '=' in o else 'deck:' + o.split(':')[0])
     if len(f) > 4:
         for o in f[3].split(';'):
             if o != '-':
@@ -1608,6 +1882,12 @@ def correspond(ctx):
         hs.append(tester_history(rng, rng.choice([6, 15, 40])))
     for k in range(6000 if thorough else 150):
         hs.append(deck_history(rng, rng.choice([6, 15, 40])))
+    # subscribers on the notification Callers that (un)subscribe from inside a notification
+    subs = sub_systematic(rng)
+    for k in range(5000 if thorough else 80):
+        subs.append(sub_history(rng, rng.choice([10, 25, 50])))
+    ctx.count('histories:subscribers', len(subs))
+    hs += subs
     # the calling thread line by line, the incoming thread in between (StepMem): same protocol, own ops
     steps = step_scenarios(rng, thorough)
     for k in range(3000 if thorough else 40):
@@ -2165,8 +2445,10 @@ def client_search(ctx):
             chunks = max(1, -(-n // 25))
             for mode in ['ok'] + ['err%d' % j for j in range(chunks)] + ['drop%d' % k for k in range(chunks + 1)]:
                 cases.append(('write', hf, n, mode))
-    for kind, hf, n, mode in cases:
+    for ahead, (kind, hf, n, mode) in [(False, c) for c in cases] + [(True, c) for c in cases]:
         h = new_deck_history(rng, 1)
+        if ahead:
+            h.op('oneshot')        # self-removing application listeners registered ahead of the manager's subscribers
         a = 9
         data = bytes(rng.randrange(256) for _ in range(n)) if kind == 'write' else b''
         if mode.startswith('err'):
@@ -2191,7 +2473,7 @@ def client_search(ctx):
         replies = pump(h, 'dpkt', int(mode[4:]) if mode.startswith('drop') else None)
         got = cbs(replies)
         failed = mode != 'ok'
-        desc = {'kind': kind, 'failure_callback': bool(hf), 'len': n, 'outcome': mode}
+        desc = {'kind': kind, 'failure_callback': bool(hf), 'len': n, 'outcome': mode, 'one_shot_listeners_ahead': ahead}
         done_tag = {'query': 'DQ', 'read': 'DR', 'write': 'DW'}[kind]
         fail_tag = done_tag + 'F'
         mine = [g for g in got if g.split(':')[1] == '1']
@@ -2242,13 +2524,16 @@ def client_search(ctx):
             report('deck-client:next-request-served', 'after a refused overlapping request a further request is not accepted', h)
             return True
     # MemoryTester: its read record (_update_finished_cb) must be free again once the read is over, however it ended
-    for n, mode in [(21, 'ok'), (0, 'ok'), (21, 'err0'), (41, 'err1'), (21, 'drop0'), (21, 'drop1')]:
+    tcases = [(21, 'ok'), (0, 'ok'), (21, 'err0'), (41, 'err1'), (21, 'drop0'), (21, 'drop1')]
+    for ahead, (n, mode) in [(False, c) for c in tcases] + [(True, c) for c in tcases]:
         h = History(rng)
         h.real = RealTester(1)
         for k in range(MEM_SIZE):
             h.dev.mems[1].data[k] = k & 0xFF
         h.lines.append('treset 1')
         h.replies.append('ok')
+        if ahead:
+            h.op('oneshot')
         if mode.startswith('err'):
             h.dev.force_status(4, 1, bytes([1]) + struct.pack('<I', 4 + 20 * int(mode[3:])), 7, times=1)
         h.op('tread %d 4 %d 1' % (RealTester.TAG, n))
@@ -2262,10 +2547,34 @@ def client_search(ctx):
             key = D64_KEY if (n == 0 or mode != 'ok') else 'tester-client:next-request-served'
             report(key, 'MemoryTester.read_data after a read that %s: the request is silently ignored (the record _update_finished_cb is '
                    'only cleared inside the loop over received bytes)' % ('returned no bytes' if mode == 'ok' else 'failed'), h,
-                   scenario={'len': n, 'outcome': mode})
+                   scenario={'len': n, 'outcome': mode, 'one_shot_listeners_ahead': ahead})
             if key != D64_KEY:
                 return True
     return False
+
+
+SUBS_KEY = 'subscriber-exactly-one'
+
+
+def subscriber_search(ctx):
+    """the property as the SUBSCRIBERS of the four notification Callers see it: every subscriber registered when a
+    notification is issued is told exactly once (in registration order, nobody else) although subscribers unsubscribe
+    themselves (one-shot listeners) / others and subscribe others from inside a notification"""
+    rng = ctx.rng
+    hs = sub_systematic(rng)
+    for k in range(3000 if ctx.tier == 'thorough' else 60):
+        hs.append(sub_history(rng, rng.choice([10, 25, 50])))
+    bad = [h for h in hs if h.violations]
+    ctx.count('search:subscriber-histories', len(hs))
+    bad.sort(key=lambda h: len(h.lines))
+    for h in bad[:3]:
+        v = h.violations[0]
+        ctx.witness(SUBS_KEY, 'a subscriber that was registered on the Caller when Memory issued the notification was not told exactly '
+                    'once (another subscriber changed the subscriptions from inside the notification)',
+                    {'ops': h.lines[:h.lines.index(next(l for l in h.lines if l.startswith(v['step']))) + 1][-40:]}, **v)
+    if bad:
+        ctx.note('subscriber search: %d of %d histories violate the property' % (len(bad), len(hs)))
+    return bool(bad)
 
 
 def interleaving_search(ctx):
@@ -2307,6 +2616,8 @@ def search(ctx):
     if any(w['key'] == 'resend-link' for w in ctx.witnesses):
         return
     if interleaving_search(ctx):
+        return
+    if subscriber_search(ctx):
         return
     if systematic_search(ctx):
         return
